@@ -84,6 +84,10 @@ func (u undelegateTx) Validate(ctx *action.Context, tx action.SignedTx) (bool, e
 		return false, action.ErrInvalidAddress
 	}
 
+	if !ud.Amount.IsValid(ctx.Currencies) || ud.Amount.Currency != action.DEFAULT_CURRENCY {
+		return false, errors.Wrap(action.ErrInvalidAmount, ud.Amount.String())
+	}
+
 	return true, nil
 }
 
